@@ -910,6 +910,13 @@ func (s *Session) varyHeader(op Op) {
 	default:
 		s.w.ctx = s.w.ctx.WithContext(context.Background())
 	}
+	// execution mode: messages are delivered by FinalizeBlock (ExecModeFinalize); the repository's own tests run under the
+	// zero value (ExecModeCheck), so one op in four keeps that.  Nothing in the store depends on the mode, so no result may.
+	if (x>>52)%4 == 0 {
+		s.w.ctx = s.w.ctx.WithExecMode(sdk.ExecModeCheck)
+	} else {
+		s.w.ctx = s.w.ctx.WithExecMode(sdk.ExecModeFinalize)
+	}
 	// a "block" is a run of ops under one header (transactions of one block share height and time, and so do the
 	// messages of one transaction): a new header starts at about one op in four, never inside an open transaction
 	if s.headerSet && (s.w.inBatch || x%4 != 0 || op.KV.get("blk") == "same") {
